@@ -534,6 +534,28 @@ async def run_steps(W: World, steps: list[dict[str, Any]], rng: random.Random | 
             async def child(body: list[dict[str, Any]] = step["body"]) -> None:
                 await run_steps(W, body, rng)
 
+            if step["via"] in ("timeout", "timeout-cancelled"):
+                # not a spawn of the program: the steps run through haiway's timeout helper (which runs its function in a task of its
+                # own, with the caller's context as a snapshot), the caller waits for it - until the deadline fires, or until the
+                # caller itself is cancelled while waiting
+                from haiway import timeout
+
+                W.event("timeout-call", name)
+                try:
+                    if step["via"] == "timeout-cancelled":
+                        me = asyncio.current_task()
+                        assert me is not None
+                        asyncio.get_running_loop().call_later(0.5, me.cancel)
+                    await timeout(1.0)(child)()
+                    W.event("timeout-returned", name)
+                except TimeoutError:
+                    W.event("timeout-fired", name)
+                except asyncio.CancelledError:
+                    W.event("timeout-caller-cancelled", name)
+                    me = asyncio.current_task()
+                    while me is not None and me.cancelling():
+                        me.uncancel()
+                continue
             if step["via"] == "ctx":
                 W.tasks[name] = ctx.spawn(child)
             else:
